@@ -22,7 +22,9 @@ RULE = ("A corpus of N scripts is generated once from VERIF_SEED with Hypothesis
         "{0,1,2,3,...} each load every script and emit the canonical content (registers of a transform sorted with its function "
         "re-ordered accordingly -- the documented freedom -- and parameters sorted) and the dumps() text (or the exception type and "
         "message). Oracle (configuration differential): all K outcomes must be identical per script. Differing scripts are reduced by "
-        "batched item removal and re-run. Non-trivial = script with >=2 symbols in one argument or an include over >=2 modes. "
+        "batched item removal and re-run. The children are started (and import blackbird) in three different directories; for file "
+        "trees the main script is additionally given to loads() as text with the tree root as working directory, and each child "
+        "serialises every program twice (the second text must equal the first). Non-trivial = script with >=2 symbols in one argument or an include over >=2 modes. "
         "Distinct = SHA-1 of the script text(s). evaluations = N scripts x K interpreters.")
 ASSUMPTIONS = ["hash randomisation is the only configuration varied; each child is a fresh interpreter"]
 BUDGET = {"quick": (600, 1), "thorough": (4000, 4)}
@@ -126,8 +128,11 @@ def run_children(corpus, k):
         for hs in range(k):
             env = dict(os.environ)
             env["PYTHONHASHSEED"] = str(hs)
+            env["PYTHONPATH"] = os.pathsep.join(os.path.abspath(x) for x in env.get("PYTHONPATH", "").split(os.pathsep) if x)
             outp = os.path.join(d, "out%d.json" % hs)
-            procs.append((hs, outp, subprocess.Popen([sys.executable, "-W", "ignore", "-m", "bbv.hashchild", cpath, outp], env=env,
+            start = os.path.join(d, "start%d" % (hs % 3))       # the children are started in different directories
+            os.makedirs(start, exist_ok=True)
+            procs.append((hs, outp, subprocess.Popen([sys.executable, "-W", "ignore", "-m", "bbv.hashchild", cpath, outp], env=env, cwd=start,
                                                      stdout=subprocess.PIPE, stderr=subprocess.STDOUT, text=True)))
             if len(procs) % 16 == 0:
                 for _, _, pr in procs[-16:]:
@@ -149,6 +154,9 @@ def differing(corpus, results):
     seeds = sorted(results)
     for e in corpus:
         base = results[seeds[0]][e["id"]]
+        if base.get("dumps_repeatable") is False:
+            out[e["id"]] = ("second-serialisation-in-one-process", seeds[0], seeds[0], base, base)
+            continue
         for hs in seeds[1:]:
             o = results[hs][e["id"]]
             if o != base:
@@ -156,6 +164,8 @@ def differing(corpus, results):
                     what = "outcome-kind"
                 elif "exc" in o:
                     what = "error-message"
+                elif o.get("loads_in_root") != base.get("loads_in_root") and o.get("content") == base.get("content"):
+                    what = "text-load-in-root-directory"
                 elif o.get("content") != base.get("content"):
                     diff = [k_ for k_ in base["content"] if base["content"][k_] != o["content"].get(k_)]
                     what = "content:" + ",".join(diff)
